@@ -19,6 +19,7 @@ package main
 
 import (
 	"fmt"
+	"go/token"
 	"go/types"
 
 	"golang.org/x/tools/go/ssa"
@@ -195,4 +196,318 @@ func (w *World) ruleHolderTakesConverted(r *Report, rule string) {
 		}
 	}
 	r.floor(rule+" (conversions of a holder's list)", n, 1)
+}
+
+// ruleHolderIsRegistered — C04.R5e: where a holder is made for a decoded list,
+// it is the holder that takes the list's place in the reference table.  In a
+// function that allocates a holder and appends to the decoder's
+// []reflect.Value table: the value appended, on the way that passes the
+// allocation, derives from the holder (reflect.ValueOf(holder)).  Registering
+// the raw slice instead hands later references a slice value that
+// reflect.Append and the conversion to the destination type have since
+// replaced.
+func (w *World) ruleHolderIsRegistered(r *Report, rule string) {
+	hn, _, _ := w.holderRole()
+	if hn == nil {
+		r.undecided(rule, "holder type", "-", "not found")
+		return
+	}
+	n := 0
+	for _, fn := range w.SrcFuncs() {
+		var holderAllocs []*ssa.Alloc
+		for _, b := range fn.Blocks {
+			for _, in := range b.Instrs {
+				if al, ok := in.(*ssa.Alloc); ok && al.Heap {
+					if pt, ok := al.Type().Underlying().(*types.Pointer); ok && types.Identical(pt.Elem(), hn) {
+						holderAllocs = append(holderAllocs, al)
+					}
+				}
+			}
+		}
+		if len(holderAllocs) == 0 {
+			continue
+		}
+		// appends to a Decoder []reflect.Value field
+		for _, b := range fn.Blocks {
+			for _, in := range b.Instrs {
+				c, ok := in.(*ssa.Call)
+				if !ok {
+					continue
+				}
+				bi, isB := c.Call.Value.(*ssa.Builtin)
+				if !isB || bi.Name() != "append" || len(c.Call.Args) != 2 {
+					continue
+				}
+				if owner, _, ok := w.fieldOfLoad(c.Call.Args[0]); !ok || owner != "Decoder" || typeStr(c.Call.Args[0].Type()) != "[]reflect.Value" {
+					continue
+				}
+				// the appended element: store into the varargs array
+				var elem ssa.Value
+				if sl, ok := c.Call.Args[1].(*ssa.Slice); ok {
+					if arr, ok := sl.X.(*ssa.Alloc); ok {
+						for _, ref := range *arr.Referrers() {
+							if ia, ok := ref.(*ssa.IndexAddr); ok {
+								for _, r2 := range *ia.Referrers() {
+									if st, ok := r2.(*ssa.Store); ok {
+										elem = st.Val
+									}
+								}
+							}
+						}
+					}
+				}
+				if elem == nil {
+					continue
+				}
+				derives := func(v ssa.Value) bool {
+					seen := map[ssa.Value]bool{}
+					var walk func(v ssa.Value, d int) bool
+					walk = func(v ssa.Value, d int) bool {
+						if seen[v] || d > 8 {
+							return false
+						}
+						seen[v] = true
+						for _, al := range holderAllocs {
+							if v == ssa.Value(al) {
+								return true
+							}
+						}
+						switch x := v.(type) {
+						case *ssa.Call:
+							for _, a := range x.Call.Args {
+								if walk(a, d+1) {
+									return true
+								}
+							}
+						case *ssa.MakeInterface:
+							return walk(x.X, d+1)
+						case *ssa.ChangeType:
+							return walk(x.X, d+1)
+						}
+						return false
+					}
+					return walk(v, 0)
+				}
+				reachFrom := func(from, to *ssa.BasicBlock) bool {
+					seen := map[*ssa.BasicBlock]bool{}
+					var walk func(x *ssa.BasicBlock) bool
+					walk = func(x *ssa.BasicBlock) bool {
+						if x == to {
+							return true
+						}
+						if seen[x] {
+							return false
+						}
+						seen[x] = true
+						for _, s := range x.Succs {
+							if walk(s) {
+								return true
+							}
+						}
+						return false
+					}
+					return walk(from)
+				}
+				ok2, fact := false, "the value appended to the reference table on the way that passes the holder's allocation does not derive from the holder: later references to the list get the raw slice, not its holder"
+				relevant := false
+				if phi, isPhi := elem.(*ssa.Phi); isPhi {
+					for i, e := range phi.Edges {
+						pred := phi.Block().Preds[i]
+						for _, al := range holderAllocs {
+							if reachFrom(al.Block(), pred) {
+								relevant = true
+								if derives(e) {
+									ok2, fact = true, "on the way that passes the holder's allocation the appended value is made from the holder"
+								}
+							}
+						}
+					}
+				} else {
+					for _, al := range holderAllocs {
+						if reachFrom(al.Block(), b) {
+							relevant = true
+						}
+					}
+					if relevant && derives(elem) {
+						ok2, fact = true, "the appended value is made from the holder"
+					}
+				}
+				if !relevant {
+					continue // the append of the branch that makes no holder (objects, maps)
+				}
+				n++
+				r.add(rule, fnName(fn)+" · the holder takes the list's place in the table", w.instrPos(c), ok2, fact)
+			}
+		}
+	}
+	// no floor: a registrar that gets its holder from a helper is not an instance
+	if n == 0 {
+		o := r.add(rule, "census", "-", true, "no function both makes a holder and appends to the reference table after it")
+		o.Trivial = true
+	}
+}
+
+// ruleChangeStores — C04.R4b: the holder's change method takes the new slice
+// unless it already holds the same storage.  Per change-role method (it stores
+// its reflect.Value parameter into the holder's value field): every path from
+// the entry to a return passes that store, except through the side of a
+// comparison `old.Pointer() == new.Pointer()` on which the two are equal.  With
+// the comparison inverted the holder keeps the slice that reflect.Append has
+// just replaced, and every later reference binds the stale one.
+func (w *World) ruleChangeStores(r *Report, rule string) {
+	hn, vi, _ := w.holderRole()
+	if hn == nil {
+		r.undecided(rule, "holder type", "-", "not found")
+		return
+	}
+	n := 0
+	for _, fn := range w.SrcFuncs() {
+		recv := fn.Signature.Recv()
+		if recv == nil || len(fn.Params) != 2 || typeStr(fn.Params[1].Type()) != "reflect.Value" || fn.Signature.Results().Len() != 0 {
+			continue
+		}
+		if pt, ok := recv.Type().(*types.Pointer); !ok || !types.Identical(pt.Elem(), hn) {
+			continue
+		}
+		stores := map[*ssa.BasicBlock]bool{}
+		for _, b := range fn.Blocks {
+			for _, in := range b.Instrs {
+				if st, ok := in.(*ssa.Store); ok && st.Val == ssa.Value(fn.Params[1]) {
+					if fa, ok := st.Addr.(*ssa.FieldAddr); ok && fa.Field == vi {
+						stores[b] = true
+					}
+				}
+			}
+		}
+		if len(stores) == 0 {
+			continue
+		}
+		n++
+		isPointerOf := func(v ssa.Value) bool {
+			c, ok := v.(*ssa.Call)
+			return ok && (calleeName(&c.Call) == "Pointer" || calleeName(&c.Call) == "UnsafePointer")
+		}
+		excused := map[[2]*ssa.BasicBlock]bool{}
+		for _, b := range fn.Blocks {
+			iff, ok := b.Instrs[len(b.Instrs)-1].(*ssa.If)
+			if !ok {
+				continue
+			}
+			cond, neg := iff.Cond, false
+			if u, isU := cond.(*ssa.UnOp); isU && u.Op == token.NOT {
+				cond, neg = u.X, true
+			}
+			// the comparison may live in a bool helper (`sameStorage(old, new)`): what it
+			// returns is, apart from constant false / true short cuts, the comparison
+			if c, isC := cond.(*ssa.Call); isC {
+				if sc := c.Call.StaticCallee(); sc != nil && w.inPkg(sc) && sc.Signature.Results().Len() == 1 {
+					switch pointerCompareResult(sc) {
+					case token.EQL:
+						if neg {
+							excused[[2]*ssa.BasicBlock{b, b.Succs[1]}] = true
+						} else {
+							excused[[2]*ssa.BasicBlock{b, b.Succs[0]}] = true
+						}
+					case token.NEQ:
+						if neg {
+							excused[[2]*ssa.BasicBlock{b, b.Succs[0]}] = true
+						} else {
+							excused[[2]*ssa.BasicBlock{b, b.Succs[1]}] = true
+						}
+					}
+				}
+				continue
+			}
+			bo, ok := cond.(*ssa.BinOp)
+			if !ok || !isPointerOf(bo.X) || !isPointerOf(bo.Y) {
+				continue
+			}
+			op := bo.Op
+			if neg {
+				if op == token.EQL {
+					op = token.NEQ
+				} else if op == token.NEQ {
+					op = token.EQL
+				}
+			}
+			switch op {
+			case token.EQL:
+				excused[[2]*ssa.BasicBlock{b, b.Succs[0]}] = true
+			case token.NEQ:
+				excused[[2]*ssa.BasicBlock{b, b.Succs[1]}] = true
+			}
+		}
+		bad := ""
+		seen := map[*ssa.BasicBlock]bool{}
+		var walk func(b *ssa.BasicBlock)
+		walk = func(b *ssa.BasicBlock) {
+			if bad != "" || seen[b] || stores[b] {
+				return
+			}
+			seen[b] = true
+			if ret, ok := b.Instrs[len(b.Instrs)-1].(*ssa.Return); ok {
+				bad = w.instrPos(ret)
+				return
+			}
+			for _, s := range b.Succs {
+				if !excused[[2]*ssa.BasicBlock{b, s}] {
+					walk(s)
+				}
+			}
+		}
+		walk(fn.Blocks[0])
+		r.add(rule, fnName(fn)+" · takes the new value unless it is the same storage", w.pos(fn.Pos()), bad == "", map[bool]string{
+			true:  "every path to a return stores the parameter, except the side on which the old and the new Pointer() are equal",
+			false: "the return at " + bad + " is reached without storing the new value on a path that has not found it to be the same storage: the holder keeps a slice that has been replaced"}[bad == ""])
+	}
+	if n == 0 {
+		o := r.add(rule, "census", "-", true, "no change-role method")
+		o.Trivial = true
+	}
+}
+
+// pointerCompareResult: EQL if the bool function returns (constants apart: the false of
+// a short-circuit `&&`, the true of `||`) a comparison Pointer() == Pointer(), NEQ for
+// `!=`, ILLEGAL otherwise.
+func pointerCompareResult(fn *ssa.Function) token.Token {
+	found := token.ILLEGAL
+	isPtr := func(v ssa.Value) bool {
+		c, ok := v.(*ssa.Call)
+		return ok && (calleeName(&c.Call) == "Pointer" || calleeName(&c.Call) == "UnsafePointer")
+	}
+	var visit func(v ssa.Value, d int) bool
+	visit = func(v ssa.Value, d int) bool {
+		if d > 6 {
+			return false
+		}
+		switch x := v.(type) {
+		case *ssa.Const:
+			return true
+		case *ssa.BinOp:
+			if (x.Op == token.EQL || x.Op == token.NEQ) && isPtr(x.X) && isPtr(x.Y) {
+				if found != token.ILLEGAL && found != x.Op {
+					return false
+				}
+				found = x.Op
+				return true
+			}
+			return false
+		case *ssa.Phi:
+			for _, e := range x.Edges {
+				if !visit(e, d+1) {
+					return false
+				}
+			}
+			return true
+		}
+		return false
+	}
+	for _, b := range fn.Blocks {
+		if ret, ok := b.Instrs[len(b.Instrs)-1].(*ssa.Return); ok && len(ret.Results) == 1 {
+			if !visit(ret.Results[0], 0) {
+				return token.ILLEGAL
+			}
+		}
+	}
+	return found
 }
